@@ -168,6 +168,7 @@ Qed.
 Lemma int64v_neg : forall n, n < 9223372036854775808 -> int64v n true = Ok (-1 - Z.of_N n)%Z.
 Proof.
   intros n H. unfold int64v.
+  replace (n =? 18446744073709551615) with false by (symmetry; apply N.eqb_neq; lia).
   rewrite (N.mod_small (n + 1)) by lia. cbn [andb negb orb].
   replace (9223372036854775808 <? n + 1) with false by (symmetry; apply N.ltb_ge; lia).
   rewrite orb_false_r.
